@@ -10,7 +10,7 @@ From Arsenal Require Import Util Budget BudgetProofs VamDev VamBlockList VamDefr
 From Arsenal Require Import VamInvStep VamInvStep2 VamInvThm VamProps VamAcct VamAcctStep VamAcctStep2 VamAcctThm VamMap VamMapStep VamMapStep2 VamMapThm.
 From Arsenal Require Import VamBal VamBalStep VamBalStep2 VamBalThm.
 From Arsenal Require Import VamDefragInv VamDefragStep VamDefragPass VamDefragThm VamDefragAcct VamDefragMap.
-From Arsenal Require Pass PassProofs Defrag DefragProofs SyncMem SyncMemProofs VamDefragBridge.
+From Arsenal Require Pass PassProofs Defrag DefragProofs DefragGranProofs Gran GranInv GranTlsf VamGran SyncMem SyncMemProofs VamDefragBridge.
 Import ListNotations.
 Open Scope Z_scope.
 
@@ -184,7 +184,7 @@ Proof.
   intros HI HM HB Hidle. unfold collect_list.
   destruct (project v (dc_lr dc)) as [st|] eqn:Ep; [|exact I].
   destruct (get_blist v (dc_lr dc)) as [l|] eqn:Hg; [|exact I].
-  pose proof (VamDefragBridge.collect_moves_f_log_g1 vam (att_commit c (dc_lr dc)) st (dc_ctx dc) p v) as (Hlg & _).
+  pose proof (VamDefragBridge.collect_moves_f_log_p vam (att_commit c (dc_lr dc)) st (dc_ctx dc) p v) as (Hlg & _).
   destruct (Defrag.collect_moves_f vam (att_commit c (dc_lr dc)) st (dc_ctx dc) p v) as (((cs & env) & log) & wr).
   unfold Defrag.res_f, Defrag.log_f in Hlg. cbn [fst snd] in Hlg. rewrite Hidle in Hlg. cbn [app] in Hlg.
   set (bl' := Defrag.d_blocks (Defrag.cs_st cs)).
@@ -213,7 +213,7 @@ Definition tmps_beyond (n : Z) (run : dfrun) : Prop :=
   forall i dc m, nth_z (dr_ctxs run) i = Some dc -> In m (Defrag.c_moves (dc_ctx dc)) -> n <= tmp_of m.
 
 Lemma pass_loop_BB fuel : forall v run p n,
-  VamInv c v -> MM ms0 v [] -> BInv v G [] -> run_idle run -> 0 <= dr_max_bytes run -> 0 <= dr_max_allocs run -> PassProofs.pass_running p -> lists_g1 v run ->
+  VamInv c v -> MM ms0 v [] -> BInv v G [] -> run_idle run -> 0 <= dr_max_bytes run -> 0 <= dr_max_allocs run -> PassProofs.pass_running p -> VamGran.GV v ->
   n <= zlen (v_tab v) ->
   let '(v', run', r) := pass_loop c fuel v run p in match r with OK _ => BInv v' G [] /\ tmps_beyond n run' | _ => True end.
 Proof.
@@ -221,11 +221,11 @@ Proof.
   destruct (nth_z (dr_ctxs run) (dr_progress run)) as [dc|] eqn:En.
   2:{ split; [exact HB|]. intros i dc m Hi Hm. cbn [dr_ctxs] in Hi. rewrite (Hidle _ _ Hi) in Hm. destruct Hm. }
   assert (Hdc : Defrag.c_moves (dc_ctx dc) = []) by (eapply Hidle; eauto).
-  pose proof (VamDefragPass.collect_list_inv c v dc p HI Hdc Hrun (fun l Hl => HG _ _ _ En Hl)) as PS.
+  pose proof (VamDefragPass.collect_list_inv_gv c v dc p HI HG Hdc Hrun) as PS.
   pose proof (VamDefragMap.collect_list_MM c Hc Hmax Hlarge ms0 v dc p HI HM) as PM.
   pose proof (collect_list_BB v dc p HI HM HB Hdc) as P.
   destruct (collect_list c v dc p) as (v1 & r). destruct r as [(dc' & p')|code| |]; auto.
-  destruct PS as (S1 & LS1 & GS1 & Elr & MS1 & Hrun'). destruct P as (B1 & T1).
+  destruct PS as ((S1 & LS1 & GS1 & Elr & MS1 & Hrun') & HG1). destruct P as (B1 & T1).
   pose proof (nth_z_some_range _ _ _ En) as Hrg.
   destruct (Defrag.c_moves (dc_ctx dc')) as [|m0 ms1] eqn:Em.
   - match goal with |- context [pass_loop c f v1 ?rr p'] => set (run1 := rr) end.
@@ -234,12 +234,6 @@ Proof.
       destruct (Z.eq_dec i (dr_progress run)) as [->|Hne].
       - rewrite nth_z_set_same in Hn1 by exact Hrg. injection Hn1 as <-. exact Em.
       - rewrite nth_z_set_other in Hn1 by congruence. eapply Hidle; eauto. }
-    assert (HG1 : lists_g1 v1 run1).
-    { intros i dc1 l1 Hn1 Hg1. unfold run1 in Hn1. cbn [dr_ctxs] in Hn1. unfold set_nth_ctx in Hn1.
-      destruct (Z.eq_dec i (dr_progress run)) as [->|Hne].
-      - rewrite nth_z_set_same in Hn1 by exact Hrg. injection Hn1 as <-. rewrite Elr in Hg1.
-        eapply (lists_frame_g1 v v1 (dr_ctxs run) LS1 HG); eauto.
-      - rewrite nth_z_set_other in Hn1 by congruence. eapply (lists_frame_g1 v v1 (dr_ctxs run) LS1 HG); eauto. }
     apply IH; auto. destruct GS1 as (Gl & _). lia.
   - split; [exact B1|]. intros i dc1 m Hi Hm. cbn [dr_ctxs] in Hi. unfold set_nth_ctx in Hi.
     destruct (Z.eq_dec i (dr_progress run)) as [->|Hne].
@@ -493,17 +487,17 @@ Lemma idle_tmps_unmapped run : drun_idle run -> tmps_unmapped run.
 Proof using. destruct run as [rn|]; [|exact (fun _ => I)]. intros Hi i dc m Hn Hm. rewrite (Hi _ _ Hn) in Hm. destruct Hm. Qed.
 
 Lemma dexec_BB v run o :
-  VamInvB v [] [] -> drun_ok v run -> dop_ok v run o -> tmps_unmapped run ->
+  VamInvB v [] [] -> VamGran.GV v -> drun_ok v run -> dop_ok v run o -> tmps_unmapped run ->
   (match o with DEnd _ => pending_unmapped run | _ => True end) ->
   let '(v', run', r, dr) := dexec c v run o in
   match r with OK _ | ER _ => BInv v' G [] /\ tmps_unmapped run' | _ => True end.
 Proof.
-  intros HI Hr Hok Htm Hbal. pose proof (va_s _ _ _ _ (vb_a _ HI)) as HU. destruct o as [flags pool mb ma| |ds|]; cbn [dexec].
+  intros HI HV Hr Hok Htm Hbal. pose proof (va_s _ _ _ _ (vb_a _ HI)) as HU. destruct o as [flags pool mb ma| |ds|]; cbn [dexec].
   - pose proof (defrag_begin_BB v flags pool mb ma (vb_bx _ HI)) as P.
     pose proof (defrag_begin_idle c v flags pool mb ma) as Pi.
     destruct (defrag_begin c v flags pool mb ma) as (v1 & r). cbn [fst] in P.
     destruct r as [rn|code| |]; auto. split; [exact P|]. apply idle_tmps_unmapped. exact (Pi v1 rn eq_refl).
-  - destruct run as [rn|]; [|exact I]. destruct Hok as (Hidle & HG). destruct Hr as (Hb & Ha & Hr).
+  - destruct run as [rn|]; [|exact I]. pose proof Hok as Hidle. pose proof HV as HG. destruct Hr as (Hb & Ha & Hr).
     pose proof (pass_loop_BB (S (length (dr_ctxs rn))) v rn (Pass.pass_init (dr_max_bytes rn) (dr_max_allocs rn)) (zlen (v_tab v)) HU (vb_mmx _ HI) (vb_bx _ HI)
                   Hidle Hb Ha (PassProofs.pass_init_running _ _ Hb Ha) HG ltac:(lia)) as P.
     pose proof (defrag_pass_inv c v rn HU (conj Hb (conj Ha Hr)) Hidle HG) as PS.
@@ -537,11 +531,11 @@ Definition dop_bal (G : Z -> Z) (run : option dfrun) (o : dop) : Prop :=
   end.
 
 Theorem dstep_preservesB G v run o f :
-  VamAcctStep.VamInvA c v [] [] -> MapInv v [] -> BInv v G [] -> drun_ok v run -> dop_ok v run o -> tmps_unmapped G run -> dop_bal G run o ->
+  VamAcctStep.VamInvA c v [] [] -> MapInv v [] -> BInv v G [] -> VamGran.GV v -> drun_ok v run -> dop_ok v run o -> tmps_unmapped G run -> dop_bal G run o ->
   let '(v', run', r, calls, dr) := dstep c v run o f in
   r <> RPanic -> r <> RStuck -> BInv v' G [] /\ tmps_unmapped G run'.
 Proof.
-  intros HI HM HB Hr Hok Htm Hbal. unfold dstep.
+  intros HI HM HB HV Hr Hok Htm Hbal. unfold dstep.
   set (ms0 := m_mems (v_m v)).
   set (v0 := set_m v (clear_calls (set_fault (v_m v) f 0))).
   assert (Hms : forall m ff n, mach_sameA c m (clear_calls (set_fault m ff n))).
@@ -554,7 +548,7 @@ Proof.
   assert (Hok0 : dop_ok v0 run o) by (destruct o; cbn in *; auto).
   assert (Hbal0 : match o with DEnd _ => pending_unmapped G run | _ => True end).
   { destruct o; auto. destruct run as [rn|]; [|exact I]. intros i dc m Hn Hm. split; [eapply Hbal; eauto|eapply Htm; eauto]. }
-  pose proof (dexec_BB c Hc Hmax Hlarge ms0 G v0 run o I0 Hr0 Hok0 Htm Hbal0) as E.
+  pose proof (dexec_BB c Hc Hmax Hlarge ms0 G v0 run o I0 (VamGran.GR_set_m v _ HV) Hr0 Hok0 Htm Hbal0) as E.
   destruct (dexec c v0 run o) as (((v1 & run1) & r) & dr).
   intros Hp Hs. destruct r as [[]|code| |]; cbn in Hp, Hs; try congruence; destruct E as (B & T); (split; [apply BInv_mach; exact B|exact T]).
 Qed.
@@ -589,7 +583,7 @@ Proof.
     { unfold gstep. destruct o; try reflexivity; destruct r; try reflexivity; apply upd_other; intros E; apply (Hidle (tmp_of m)); cbn; auto. }
     rewrite Eg. eapply Htm; eauto.
   - pose proof (reachDB_reachDA _ _ _ R) as RA. destruct (reachDA_inv c Ha v run RA) as (HI & Hr).
-    pose proof (dstep_preservesB G v run o f HI (reachDA_map c Ha v run RA) (proj1 IH) Hr Hok (proj2 IH) Hbal) as P. rewrite Hs in P. apply P; auto.
+    pose proof (dstep_preservesB G v run o f HI (reachDA_map c Ha v run RA) (proj1 IH) (reachD_gv c Hc v run (reachDA_reachD c Ha v run RA)) Hr Hok (proj2 IH) Hbal) as P. rewrite Hs in P. apply P; auto.
 Qed.
 
 Theorem reachDB_bal v run G : reachDB v run G -> BInv v G [].
